@@ -136,4 +136,12 @@ def run(tier):
            loc=loc_of(b["blocks"][(bad_same or live or [(pbb, None)])[0][0]]["tspan"]))
     rep.ob("C03.glue|counter-stable", not bad_stable, "the counter is not modified between the `pc` store and the encoder call" if not bad_stable else
            "the counter is modified between the `pc` store and the encoder call")
+    # the target that was named: a label called r16_loop or zero is a label, not a register with something behind it
+    import grammar
+    import layout_match
+    g, problems = grammar.load_checked(P)
+    for pr in problems:
+        rep.unprovable("C03.grammar|cross-check", "grammar reader disagrees with the compiled parser: %s" % pr)
+    layout_match.use_conditions(P)
+    layout_match.identifier_operands(g, rep, "C03.target", shapes=("target", "branch-target", "call-target"), floor=40)
     return rep
